@@ -141,12 +141,16 @@ def jAction (a : Action) : Json :=
     ("rules_applied", jIds a.rulesApplied),
     ("log_override", match a.logOverride with | none => .null | some l => jLog l)]
 
-/-- Response headers after `filter_headers`: the selected filters applied by the C13 model, then
-the `X-RedirectionIo-RuleIds` header. -/
-def renderHeaders (headers : List Rio.Header.Header) (filters : List HeaderFilter)
+/-- Response headers after `filter_headers`.  Model side (`useRef = false`): exactly
+`Action.filterHeadersFull` (selected filters through the C13 pipeline model, then the
+`X-RedirectionIo-RuleIds` header).  Specification side (`useRef = true`): the left fold of the C13
+reference operations over the selected filters, then the ids header. -/
+def renderHeaders (useRef : Bool) (headers : List Rio.Header.Header) (filters : List HeaderFilter)
     (ids : Option (List RuleId)) : Json :=
-  let fs : List Rio.Header.HeaderFilter := filters.map fun f => ⟨f.action, f.header, f.value⟩
-  let out : List Rio.Header.Header := Rio.Header.filterHeaders String.toLower fs headers
+  let fs : List Rio.Header.HeaderFilter := filters.map toHeaderOp
+  let out : List Rio.Header.Header :=
+    if useRef then Rio.Header.refFold String.toLower fs headers
+    else Rio.Header.filterHeaders String.toLower fs headers
   let out : List Rio.Header.Header := match ids with
     | none => out
     | some l => out ++ [⟨"X-RedirectionIo-RuleIds", String.intercalate ";" (l.map stringOfId)⟩]
@@ -158,10 +162,11 @@ def renderBody (filters : List BodyFilter) (body : String) : Json :=
   if chain.isEmpty then .null
   else Json.mkObj [("kinds", toJson (chain.map fun _ => "text")), ("out", toJson (Probe.runChain chain body))]
 
-def renderOp (headers : List Rio.Header.Header) (body : String) (r : OpResult × List RuleId) : Json :=
+def renderOp (useRef : Bool) (headers : List Rio.Header.Header) (body : String)
+    (r : OpResult × List RuleId) : Json :=
   let (name, v) : String × Json := match r.1 with
     | .status n => ("status", toJson n)
-    | .headers fs ids => ("headers", renderHeaders headers fs ids)
+    | .headers fs ids => ("headers", renderHeaders useRef headers fs ids)
     | .body fs => ("body", renderBody fs body)
     | .log b => ("log", toJson b)
     | .final s c => ("final", toJson [s, c])
